@@ -33,8 +33,11 @@ Oracles (only what the statement says)
   * a cycle through a tuple (a ref to an enclosing tuple): only termination and input immutability (DESIGN 5.1) -
     no finite bottom-up rebuild of such a structure exists.
 """
+import ast
+import contextlib
 import itertools
 import signal
+import sys
 
 from mc import core, inputs
 
@@ -46,6 +49,23 @@ STEP_LIMIT = 400          # visit calls per remap call; a correct remap makes on
 MAX_HANGS = 1             # a shard stops after this many exhausted budgets
 
 LEAVES = (0, 1, 'a')
+
+
+def PY(v):
+    """Spec of a scalar that JSON cannot carry (bytes, complex): its Python literal."""
+    return {'py': repr(v)}
+
+
+# Vocabulary 1 ("other scalar kinds, other key kinds"), enumerated on smaller structures: the statement says *arbitrary*
+# scalar leaves, so one representative of every built-in scalar kind that is not in vocabulary 0 - None, both bools
+# (the values visit itself returns), a float, the empty and a multi-character str (a str is a Sequence of itself),
+# bytes with a zero byte (a Sequence of ints) and a complex number;
+LEAVES1 = (None, False, True, 2.5, '', 'ab', PY(b'\x00a'), PY(2j))
+# and dict keys that collide with something else a path segment could mean: attribute names of dict / list / every
+# object / int, a digit string (looks like a list index), a dotted string (get_path splits *string* paths at dots),
+# a negative int and a float.
+KEYS1 = ('items', 'index', '__class__', 'real', '0', 'a.b', -1, 2.5)
+_VOC = [LEAVES, None]          # the vocabulary the generators below draw from: [leaves, key menu function or None]
 CONTAINERS = (list, tuple, dict, set, frozenset)
 MUTABLE = (list, dict, set)
 TAGS = {'L': list, 'T': tuple, 'D': dict, 'S': set, 'F': frozenset}
@@ -72,8 +92,20 @@ def iu():
 # ======================================================================================================
 # terms: enumeration
 
+def key_menus1(k, rich):
+    """Vocabulary 1: every key alone; every key followed by its successor (cyclically) for two entries; rotations."""
+    if k == 0:
+        return [()]
+    m = len(KEYS1)
+    if k == 1:
+        return [(key,) for key in KEYS1]
+    return [tuple(KEYS1[(i + j) % m] for j in range(k)) for i in range(m)]
+
+
 def key_menus(k, rich):
     """Key sequences offered to a dict with k entries."""
+    if _VOC[1] is not None:
+        return _VOC[1](k, rich)
     if k == 0:
         return [()]
     if rich and k <= 2:
@@ -88,14 +120,14 @@ def key_menus(k, rich):
 
 def _set_order_ok(kids):
     """Set members are unordered: scalar members are listed first, in increasing order, each at most once."""
-    last, seen_container = -1, False
+    last, seen_container, leaves = -1, False, _VOC[0]
     for kid in kids:
         if isinstance(kid, list):
             seen_container = True
             continue
         if seen_container:
             return False
-        i = LEAVES.index(kid)
+        i = [j for j, lf in enumerate(leaves) if type(lf) is type(kid) and lf == kid][0]      # True == 1: compare types
         if i <= last:
             return False
         last = i
@@ -107,7 +139,7 @@ def gen_term(n, nc, hashable, rich):
     Yields (spec, number of containers defined after)."""
     tags = 'TF' if hashable else 'LTDSF'
     if n == 1:
-        for v in LEAVES:
+        for v in _VOC[0]:
             yield v, nc
         for i in range(nc):
             yield ['r', i], nc
@@ -142,8 +174,9 @@ def gen_kids(budget, nc, hashable, rich, first_size=None, pick=None):
 
 
 def gen_roots(shard, rich):
-    """Root terms of one shard = (n, tag, first child size, r, m), simplest first."""
-    n, tag, s1, r, m = shard
+    """Root terms of one shard = (n, tag, first child size, r, m, vocabulary), simplest first."""
+    n, tag, s1, r, m, voc = shard
+    _VOC[:] = [LEAVES1, key_menus1] if voc else [LEAVES, None]
     if n == 1:
         yield [tag]
         return
@@ -161,17 +194,17 @@ def gen_roots(shard, rich):
 WAYS = {4: 8, 5: 16, 6: 64}
 
 
-def shard_list(sizes):
+def shard_list(sizes, voc=0):
     out = []
     for n in sizes:
         for tag in 'LTDSF':
             if n == 1:
-                out.append((1, tag, 0, 0, 1))
+                out.append((1, tag, 0, 0, 1, voc))
                 continue
             for s1 in range(1, n):
-                m = WAYS.get(n, 1)
+                m = WAYS.get(n, 1) * (4 if voc else 1)
                 for r in range(m):
-                    out.append((n, tag, s1, r, m))
+                    out.append((n, tag, s1, r, m, voc))
     return out
 
 
@@ -188,6 +221,8 @@ class _Node:
 
 def _parse(spec, nodes, anc, flags):
     """spec -> leaf value | ('r', i) | _Node; fills nodes (pre-order) and flags."""
+    if isinstance(spec, dict):
+        return ast.literal_eval(spec['py'])
     if not isinstance(spec, list):
         return spec
     if spec[0] == 'r':
@@ -401,6 +436,13 @@ BASIC_TABLES = _tables('basic')       # 125 value-kind tables + 25 len(path)-par
 RICH_TABLES = _tables('rich')         # 265 tables over value kind x key-is-str with <= 2 non-default cells
 FULL_UPTO = 4                         # structures of <= 4 nodes run every basic table, in both tiers
 DEFAULT_ONLY_FROM = 6                 # structures of >= 6 nodes (thorough): default callbacks, research, path-echo
+# remap's documented print-only option ``trace`` must not change what remap returns: the default callbacks and the five
+# uniform tables (one action everywhere) are run again with each trace setting on small structures, and the default
+# callbacks and the "same pair" table with trace=True on structures of up to TRACE_UPTO nodes.
+TRACES = (True, 'enter', 'visit', 'exit')
+UNIFORM_TABLES = [{'kind': 'vk', 'acts': [a] * 3} for a in ACTIONS]
+TRACE_FULL_UPTO = 3
+TRACE_UPTO = 5
 
 
 def _distinct_on(tables, cells):
@@ -421,18 +463,24 @@ def programs(tier, n, flags, root=None):
     out = [{'kind': 'default'}, {'kind': 'research'}]
     if not flags['set_members']:
         out.append({'kind': 'echo'})
+    if n <= TRACE_FULL_UPTO:
+        traced = [dict(p, trace=tr) for tr in TRACES for p in [{'kind': 'default'}] + UNIFORM_TABLES]
+    elif n <= TRACE_UPTO:
+        traced = [{'kind': 'default', 'trace': True}, dict(UNIFORM_TABLES[2], trace=True)]
+    else:
+        traced = []
     if n >= DEFAULT_ONLY_FROM:
-        return out
+        return out + traced
     if tier == 'quick' or n <= FULL_UPTO:
         out += BASIC_TABLES
         if tier == 'quick':
-            return out
+            return out + traced
     cells = None if flags['tuple_cycle'] else cells_of(root)
     if n > FULL_UPTO:
         out += _distinct_on(BASIC_TABLES, cells)
     if not flags['set_members']:          # the key of a set member is not specified by the statement
         out += _distinct_on(RICH_TABLES, cells)
-    return out
+    return out + traced
 
 
 # ======================================================================================================
@@ -593,7 +641,26 @@ def walk_through_set(root, path):
 # one case = (structure, program)
 
 def progname(prog):
-    return prog['kind']
+    return prog['kind'] + ('+trace' if prog.get('trace') else '')
+
+
+class _NullOut:
+    """Where remap's trace output goes."""
+
+    def write(self, text):
+        return len(text)
+
+    def flush(self):
+        pass
+
+
+def call_remap(I, root, prog, **kw):
+    """remap(root, **kw), with the program's trace setting (print-only by its documentation) when it has one."""
+    tr = prog.get('trace')
+    if not tr:
+        return I.remap(root, **kw)
+    with contextlib.redirect_stdout(_NullOut()):
+        return I.remap(root, trace=tr, **kw)
 
 
 def run_case(root, flags, prog, snap):
@@ -642,25 +709,26 @@ def run_case(root, flags, prog, snap):
         return out
 
     if kind == 'default':
-        res = guarded(lambda: I.remap(root))
+        dc = 'default-callbacks+trace' if prog.get('trace') else 'default-callbacks'
+        res = guarded(lambda: call_remap(I, root, prog))
         if res[0] == 'hang':
-            return [('C08|fn:remap|default-callbacks:terminates', 'returns', 'no result within the %s budget' % res[1], ())]
+            return [('C08|fn:remap|%s:terminates' % dc, 'returns', 'no result within the %s budget' % res[1], ())]
         check_input('remap')
         if flags['tuple_cycle']:
             return out
         if res[0] == 'raised':
-            out.append(('C08|fn:remap|default-callbacks:raised', 'an equal deep copy: ' + snap[2], 'raised ' + res[1], ()))
+            out.append(('C08|fn:remap|%s:raised' % dc, 'an equal deep copy: ' + snap[2], 'raised ' + res[1], ()))
             return out
         diff = iso(root, res[1])
         if diff:
-            out.append(('C08|fn:remap|default-callbacks:not-an-equal-deep-copy(%s)' % diff, snap[2], render(res[1]), ()))
+            out.append(('C08|fn:remap|%s:not-an-equal-deep-copy(%s)' % (dc, diff), snap[2], render(res[1]), ()))
         elif reachable_mutable(root) & reachable_mutable(res[1]):
-            out.append(('C08|fn:remap|default-callbacks:shares-mutable-container-with-input',
+            out.append(('C08|fn:remap|%s:shares-mutable-container-with-input' % dc,
                         'no list/dict/set object reachable from both', render(res[1]), ()))
         return out
 
     name = progname(prog)
-    res = guarded(lambda: I.remap(root, visit=make_visit(prog)))
+    res = guarded(lambda: call_remap(I, root, prog, visit=make_visit(prog)))
     if res[0] == 'hang':
         return [('C08|fn:remap|visit=%s:terminates' % name, 'returns', 'no result within the %s budget' % res[1], ())]
     check_input('remap')
@@ -692,8 +760,8 @@ def evaluate(spec, prog):
 
 def bounds(tier):
     if tier == 'quick':
-        return {'N': 4, 'rich_keys_upto': 4}
-    return {'N': 6, 'rich_keys_upto': 4}
+        return {'N': 4, 'rich_keys_upto': 4, 'N1': 3}
+    return {'N': 6, 'rich_keys_upto': 4, 'N1': 3}
 
 
 def run(ctx):
@@ -714,6 +782,8 @@ def run(ctx):
                     t.add('terms_not_constructible', 1)
                     continue
                 t.add('structures', 1)
+                if arg[5]:
+                    t.add('structures_vocabulary1', 1)
                 if flags['tuple_cycle']:
                     t.add('structures_with_cycle_through_tuple', 1)
                 elif flags['cycle']:
@@ -747,7 +817,8 @@ def run(ctx):
     sizes = range(1, B['N'] + 1)
     rule = ('a case (structure, program) is non-trivial when the structure has a container nested inside the root or at '
             'least one back-reference (shared object or cycle)')
-    total = inputs.run_shards(ctx, shard, shard_list(sizes), part='remap+research', rule=rule)
+    shards = shard_list(sizes) + shard_list(range(1, B['N1'] + 1), voc=1)
+    total = inputs.run_shards(ctx, shard, shards, part='remap+research', rule=rule)
     cov = ctx.coverage
     capped = bool(total.extra.get('stopped_after_hangs'))
     if capped:
@@ -767,6 +838,13 @@ def run(ctx):
                      '("a", 0, "K"), dicts of k >= 3 entries three key orders; larger structures: keys "a", 0, "K", "b", ...'
                      % B['rich_keys_upto'],
         'set members': 'scalars listed first in one canonical order (members are unordered); every order of container members',
+        'vocabulary 1': 'the same terms with <= %d nodes over the leaves None, False, True, 2.5, "", "ab", b"\\x00a", 2j and '
+                        'the dict keys %s (one entry: each key; k entries: k cyclically consecutive keys, from every start); '
+                        '%d structures' % (B['N1'], ', '.join(repr(k) for k in KEYS1),
+                                           total.extra.get('structures_vocabulary1', 0)),
+        'trace': 'structures of <= %d nodes: default callbacks and the 5 uniform tables again with trace=True, "enter", '
+                 '"visit", "exit"; structures of %d..%d nodes: default callbacks and the same-pair table with trace=True '
+                 '(output discarded)' % (TRACE_FULL_UPTO, TRACE_FULL_UPTO + 1, min(TRACE_UPTO, B['N'])),
     }
     if tier == 'quick':
         cov['bounds']['programs'] = basic
@@ -788,7 +866,10 @@ def run(ctx):
         'full path only on structures without set members (the key of a set member is not specified)',
         'custom enter/exit callbacks and reraise_visit=False are outside the statement (it quantifies over visit '
         'functions that keep, drop or rewrite items) and are not explored',
-        'scalars are 0, 1, "a" (plus "X", "K" and path tuples produced by the programs)',
+        'scalars are 0, 1, "a" (plus "X", "K" and path tuples produced by the programs); one representative of the other '
+        'built-in scalar kinds (None, bool, float, empty / longer str, bytes, complex) on structures of <= %d nodes' % B['N1'],
+        "remap's keyword trace is documented as print-only, so the statement's claims about the return value are also "
+        'checked with tracing switched on; the printed text itself is not examined',
     ]
 
 
